@@ -854,13 +854,16 @@ def select__schema_element_kind_test(self: XPathFunction, context: ta.ContextTyp
     qname = get_expanded_name(element_name, self.parser.namespaces)
 
     if self.parser.schema is not None:
-        for _ in context.iter_children_or_self():
-            if self.parser.schema.get_element(qname) is None:
-                raise self.error('XPST0008', "element %r not found in schema" % element_name)
+        if self.parser.schema.get_element(qname) is None:
+            raise self.error('XPST0008', "element %r not found in schema" % element_name)
 
-            if isinstance(context.item, ElementNode) and context.item.name == qname:
-                yield context.item
-                return
+        matched = False
+        for item in context.iter_children_or_self():
+            if isinstance(item, ElementNode) and item.name == qname:
+                matched = True
+                yield item  # every match; the iteration restores the context when it ends
+        if matched:
+            return
 
     if not isinstance(context, XPathSchemaContext):
         raise self.error('XPST0008', 'schema element %r not found' % element_name)
